@@ -33,7 +33,7 @@ CHECKS = [
         "same successor and predecessor multisets (80+ clauses in contracts/c04.py, 8 in contracts/c04_eventset.py). A mechanical scan "
         "of tel2puml/** turns every syntactic mutation site of event_sets / the cached tree into an obligation `Event.frame@<function>` that must be "
         "covered by such a contract. BOUNDED complement (not counted as proved): on the real code with real model files, for all job sets of <= 3 jobs "
-        "from a 7-job family and every split into save -> load -> continue, the final model has the event types, sets, counts and gate trees of the "
+        "from a 9-job family (incl. jobs started by two events in parallel) and every split into save -> load -> continue, the final model has the event types, sets, counts and gate trees of the "
         "one-shot run, and the model file round-trips.",
         "Trusted / not covered: EventSet is viewed as the multiset it denotes (equal counts <=> equal value; the concrete dict subclass and its "
         "__eq__/__hash__ are exercised only by the runtime contracts and the bounded harness, not proved; its constructor, is_subset, "
